@@ -161,6 +161,8 @@ class Check:
                     key = "%s:%s" % (cur_op, m.group(1) if m else "-")
                     self.outcomes[key] = self.outcomes.get(key, 0) + 1
                     cur_op = None
+                if line.startswith('{"e":"Unavailable"'):
+                    self.unavailable = getattr(self, "unavailable", set()) | {json.loads(line)["what"]}
                 if line.startswith('{"e":"Sweep"'):
                     d = json.loads(line)
                     self.swept = getattr(self, "swept", 0) + d["n"]
@@ -280,6 +282,8 @@ class Check:
         )
         if self.exhaustive is not None:
             cov["exhaustive"] = self.exhaustive
+        if getattr(self, "unavailable", None):
+            cov["internal_observations_unavailable_in_this_tree"] = sorted(self.unavailable)
         if getattr(self, "swept", 0):
             cov["random_tokens_swept_through_the_word_lookup"] = self.swept
             cov["swept_tokens_the_library_accepted_each_judged_by_the_specification"] = self.sweep_hits
